@@ -287,10 +287,14 @@ func (c *columnKey) Apply(chunk commit.Chunk, r *commit.Reader) {
 		switch r.Type {
 		case commit.Put:
 			value := string(r.Bytes())
+			old, had := data[offset], fill.Contains(uint32(offset))
 
 			fill[offset>>6] |= 1 << (offset & 0x3f)
 			data[offset] = value
 			c.lock.Lock()
+			if had && old != value && c.seek[old] == uint32(r.Offset) {
+				delete(c.seek, old) // the row was re-keyed: its old key no longer resolves
+			}
 			c.seek[value] = uint32(r.Offset)
 			c.lock.Unlock()
 
